@@ -71,18 +71,23 @@ CLAIMS = {
          "callback) and add_signal on the real Signals / SignalsInfo<WithRawSiginfo> / SignalIterator with a real "
          "UnixStream pair; the scheduler knows when the consumer is blocked in read() (poll(2)); TLC validates against "
          "TraceIteratorAbs: a consumer blocked, or parked as pending at the end, with a set slot of a watched signal "
-         "and no byte outstanding violates V_C09",
+         "and no byte outstanding violates V_C09; the runtime adapters (tokio, async-std, mio 0.7/0.8/1.0) run operation "
+         "histories (poll / deliver / close / add / reactor turn) in forked children and TLC validates them against "
+         "the monitor of AsyncOps.tla (a parked task with an unreported signal must be woken by the reactor), whose "
+         "implementation model is checked with the callback behaviour observed",
          "7.C09", "exhaustive schedule enumeration of real code + TLC trace validation against property-level TLA+ monitor"),
  "C10": ("model_checking",
          "same runs; every yield is validated: watched signal, yields <= deliveries begun at every instant, and for "
          "the raw-siginfo exfiltrator each record is the faithful copy of exactly one simulated delivery (id in "
          "si_pid/si_uid), never twice, and never before a record of a delivery that had returned before it began; "
-         "bursts longer than the 5-slot buffer included",
+         "bursts longer than the 5-slot buffer included; adapter histories: no yield without a delivery",
          "7.C10", "exhaustive schedule enumeration of real code + TLC trace validation"),
  "C11": ("model_checking",
          "close() from one or two handles at every scheduling point of poll_signal / wait / forever, with concurrent "
          "deliveries; TLC validates: closed flag sticky on every load, PollResult::Pending only if the callback was "
-         "consulted in that call and said no, nobody stays blocked after close (scheduler deadlock report)",
+         "consulted in that call and said no, nobody stays blocked after close (scheduler deadlock report); adapter "
+         "histories (tokio, async-std): a task parked on poll_next is woken by close(), then the stream ends and "
+         "stays ended (AsyncOps.tla)",
          "7.C11", "exhaustive schedule enumeration of real code + TLC trace validation"),
  "C12": ("model_checking",
          "forked probes run add_signal / raise / clone+drop handle / drop instance histories (numbers from every class: "
@@ -161,7 +166,7 @@ def main():
                                                    "section 7 for the planned decision)")})
     m = {
         "version": 1,
-        "setup_cmd": "cd /verif/harness && (test -f Cargo.lock || cp /repo/Cargo.lock .) && cargo build --offline",
+        "setup_cmd": "cd /verif/harness && (test -f Cargo.lock || cp /repo/Cargo.lock .) && cargo build --offline && cd /verif/harness_async && (test -f Cargo.lock || cp /repo/Cargo.lock .) && cargo build --offline",
         "hooks": {
             "guard": "sighook_verif",
             "enable": "rustflags --cfg sighook_verif (set in /verif/harness/.cargo/config.toml; the harness has path dependencies on /repo)",
